@@ -264,4 +264,64 @@ example : noWait exK.m.t (exK.veh.full exK.acts) exK.veh.startLoc exK.veh.dep = 
     noWait exK.m.t (exK.veh.full (insertAt exK.acts 1 { loc := 2, s := 0, e := 50, dur := 2 })) exK.veh.startLoc exK.veh.dep = true ∧
     costVector exK 1 { loc := 2, s := 0, e := 50, dur := 2 } = [-1, 0, 12] := by decide
 
+/-! ## cost goal, first job of a tour -/
+
+/-- **C20, cost goal, first job of an unused tour**: when nobody waits in the new tour, the quote (route-level fixed cost
+    included) is the total cost of the new tour, which is the change since an unused tour costs nothing -/
+theorem quote_exact_cost_first (c : Ctx) (x : Act) (hobj : c.obj = .cost) (he : c.tour = [])
+    (hnew : noWait c.m.t (c.veh.full [x]) c.veh.startLoc c.veh.dep = true) :
+    costVector c 0 x = List.zipWith (· - ·) (fitnessOf c (insertAt c.acts 0 x) 0) (fitnessOf c c.acts 1) := by
+  have ha : c.acts = [] := by simp [Ctx.acts, he]
+  unfold costVector fitnessOf transportFitness totalDuration estimateCostActivity
+  simp only [hobj, ha, he, insertAt]
+  cases hend : c.veh.endAt with
+  | none =>
+    simp only [Veh.full, Veh.endActs, hend, List.append_nil, noWait, Bool.and_true, decide_eq_true_eq] at hnew
+    simp [Veh.full, Veh.endActs, hend, after, totalDist, depOf]
+    have h1 : max (x.s - (c.veh.dep + c.m.t c.veh.startLoc x.loc)) 0 = 0 := by omega
+    have h2 : max (c.veh.dep + c.m.t c.veh.startLoc x.loc) x.s + x.dur - c.veh.dep
+        = c.m.t c.veh.startLoc x.loc + x.dur := by omega
+    rw [h1, h2]
+    simp only [Int.add_mul, Int.zero_mul]
+    omega
+  | some e =>
+    obtain ⟨el, eT⟩ := e
+    simp only [Veh.full, Veh.endActs, hend, List.cons_append, List.nil_append, noWait, Bool.and_true, Bool.and_eq_true,
+      decide_eq_true_eq] at hnew
+    obtain ⟨hx, hE⟩ := hnew
+    simp [Veh.full, Veh.endActs, hend, after, totalDist, depOf]
+    unfold depOf at hE
+    have h1 : max (x.s - (c.veh.dep + c.m.t c.veh.startLoc x.loc)) 0 = 0 := by omega
+    have h3 : max (c.veh.dep + c.m.t c.veh.startLoc x.loc) x.s = c.veh.dep + c.m.t c.veh.startLoc x.loc := by omega
+    rw [h1, h3] at *
+    have h4 : max (-(c.veh.dep + c.m.t c.veh.startLoc x.loc + x.dur + c.m.t x.loc el)) 0 = 0 := by omega
+    have h5 : max (c.veh.dep + c.m.t c.veh.startLoc x.loc + x.dur + c.m.t x.loc el) 0 - c.veh.dep
+        = c.m.t c.veh.startLoc x.loc + x.dur + c.m.t x.loc el := by omega
+    rw [h4, h5]
+    simp only [Int.add_mul, Int.zero_mul]
+    omega
+
+def exE : Ctx := { exK with tour := [] }
+example : noWait exE.m.t (exE.veh.full [{ loc := 2, s := 0, e := 50, dur := 4 }]) exE.veh.startLoc exE.veh.dep = true ∧
+    costVector exE 0 { loc := 2, s := 0, e := 50, dur := 4 } = [-1, 1, 42] := by decide
+
+/-! ## maximize-value layer: the quote is the realised change, at every position -/
+
+theorem sum_insertAt (vals : List Int) (i : Nat) (v : Int) : (insertAt vals i v).sum = vals.sum + v := by
+  unfold insertAt
+  have h : vals.sum = (vals.take i).sum + (vals.drop i).sum := by
+    rw [← List.sum_append, List.take_append_drop]
+  rw [List.sum_append, List.sum_cons, h]
+  omega
+
+/-- **C20, total value of served jobs**: the quoted (route-level) cost equals the change of the layer's value recomputed from
+    the tour, whatever the position -/
+theorem quote_exact_value (vals : List Int) (i : Nat) (v : Int) :
+    valueFitness (insertAt vals i v) - valueFitness vals = valueQuote v := by
+  unfold valueFitness valueQuote
+  rw [sum_insertAt]
+  omega
+
+example : valueFitness (insertAt [3, 0, 7] 1 5) - valueFitness [3, 0, 7] = valueQuote 5 := by decide
+
 end C20
